@@ -323,6 +323,24 @@ def run_global(name: str) -> dict:
         shutil.rmtree(root, ignore_errors=True)
 
 
+def run_determinism() -> dict:
+    """All checks must give the same verdicts and the same obligation counts whatever the hash seed (set iteration order)."""
+    import re
+
+    outs = []
+    for seed in ("1", "2", "3"):
+        env = dict(os.environ, TLVERIF_NO_EVIDENCE="1", PYTHONHASHSEED=seed)
+        r = subprocess.run([sys.executable, "-W", "ignore", "-m", "tlverif", "all", "--tier", "quick"], cwd=HERE.parent, env=env, capture_output=True, text=True)
+        lines = [re.sub(r" wall=[0-9.]+s", "", ln) for ln in (r.stdout + r.stderr).splitlines() if "tier=" in ln or ln.startswith(("VIOLATION", "UNDECIDED", "ANALYSIS-ERROR", "KNOWN-FINDING"))]
+        outs.append("\n".join(sorted(lines)))
+    if len(set(outs)) != 1:
+        import difflib
+
+        diff = "\n".join(list(difflib.unified_diff(outs[0].splitlines(), outs[1].splitlines(), lineterm=""))[:20] or list(difflib.unified_diff(outs[0].splitlines(), outs[2].splitlines(), lineterm=""))[:20])
+        return {"id": "global:hash-seed-determinism", "ok": False, "why": "the checks' summaries differ between PYTHONHASHSEED values", "out": diff}
+    return {"id": "global:hash-seed-determinism", "ok": True}
+
+
 def main(jobs: int = 16, only: str | None = None, strict: bool = True) -> int:
     """strict=False (thorough tier of a check): variants whose anchor text is gone from the tree under analysis are
     skipped and reported, not failed — the tree may have been edited since the variant library was written."""
@@ -337,6 +355,8 @@ def main(jobs: int = 16, only: str | None = None, strict: bool = True) -> int:
     res = []
     with cf.ThreadPoolExecutor(max_workers=jobs) as ex:
         futs = [ex.submit(run_global, g) for g in GLOBAL_TRANSFORMS] if only is None else []
+        if only is None:
+            futs.append(ex.submit(run_determinism))
         futs += [ex.submit(run_patch_variant, v) for v in pvs]
         for r in ex.map(run_variant, vs):
             res.append(r)
